@@ -10,7 +10,7 @@
 From Coq Require Import ZArith List Bool Sorted.
 From Low Require Import Lib.Bits Lib.BitSeq Model.BuilderOps Model.BitmapOf Spec.OfSpec
   Proofs.OfProofs Proofs.OfInspect Proofs.OfRoundTrip Proofs.BuilderProofs
-  Model.BitmapMask Spec.MaskSpec Proofs.MaskProofs.
+  Model.BitmapMask Spec.MaskSpec Proofs.MaskProofs Model.BitmapFmt Spec.FmtSpec Proofs.FmtProofs.
 Import ListNotations.
 Open Scope Z_scope.
 
@@ -202,6 +202,33 @@ Theorem C12_Bit_bits : forall j t, 0 <= j < 64 -> 0 <= t ->
 Proof. exact bit_bits. Qed.
 Print Assumptions C12_Bit_bits.
 
+(** * widening: bitmap.Fmt (bitmap/fmt.go), the printer users combine with Of / ToArray *)
+(** any integer kind (1, 2, 4, 8 bytes, signed or not: the value's two's-complement bits), single value
+    or slice of any length: no panic; every integer is printed as its bits, position 0 first, '0'/'1',
+    groups of 8 separated by ' ', integers separated by ','.  Any other type panics, except an empty slice *)
+Theorem C12_Fmt : forall sz isslice xs, Fmt sz isslice xs = spec_Fmt sz isslice xs.
+Proof. exact Fmt_exact. Qed.
+Print Assumptions C12_Fmt.
+
+(** a slice of sz-byte integers: the printed characters other than the separators are the concatenated
+    bit sequences *)
+Theorem C12_Fmt_digits : forall sz xs,
+  digits_of (sjoin [44] (map (spec_int sz) xs)) = map sdigit (flat_map (bits (8 * sz)) xs).
+Proof. exact Fmt_digits. Qed.
+Print Assumptions C12_Fmt_digits.
+
+(** a bitmap: Fmt shows exactly [flat ws], and the p-th digit is '1' exactly for the positions ToArray lists *)
+Theorem C12_Fmt_words : forall ws,
+  exists s, Fmt 8 true ws = Some s /\ digits_of s = map sdigit (flat ws).
+Proof. exact Fmt_words. Qed.
+Print Assumptions C12_Fmt_words.
+
+Theorem C12_Fmt_words_ones : forall ws s p,
+  Fmt 8 true ws = Some s -> 0 <= p ->
+  (nth_error (digits_of s) (Z.to_nat p) = Some 49 <-> In p (ones (flat ws))).
+Proof. exact Fmt_words_ones. Qed.
+Print Assumptions C12_Fmt_words_ones.
+
 (** * non-vacuity *)
 (** Of: positions at 63/64/65 and a gap of more than 3 words, n smaller than last+1 *)
 Example C12_Of_nonvacuous :
@@ -257,3 +284,18 @@ Example C12_Mask_nonvacuous :
   mask_at 64 = Some (2^64 - 1, 0) /\ mask_at 0 = Some (0, 2^64 - 1) /\ mask_at 65 = None /\ mask_at (-1) = None /\
   bit_at 63 = Some (2^64 - 1, 0, 2^63, 2^63 - 1) /\ bit_at 64 = None.
 Proof. vm_compute. intuition congruence. Qed.
+
+(** Fmt: the example of the doc comment, int32(0x0102) --> "01000000 10000000 00000000 00000000"; a negative
+    int8; a two-word bitmap; a non-integer type *)
+Example C12_Fmt_nonvacuous :
+  Fmt 4 false [258] = Some [48;49;48;48;48;48;48;48; 32; 49;48;48;48;48;48;48;48; 32;
+                            48;48;48;48;48;48;48;48; 32; 48;48;48;48;48;48;48;48] /\
+  Fmt 1 false [-2] = Some [48;49;49;49;49;49;49;49] /\
+  Fmt 1 true [1; 128] = Some [49;48;48;48;48;48;48;48; 44; 48;48;48;48;48;48;48;49] /\
+  Fmt 3 false [1] = None /\ Fmt 3 true [] = Some [] /\ Fmt 3 true [1] = None /\
+  (exists s, Fmt 8 true [5; 2^63] = Some s /\ length s = 143%nat /\
+             digits_of s = map sdigit (flat [5; 2^63])).
+Proof.
+  repeat split; try (vm_compute; reflexivity).
+  exists (match Fmt 8 true [5; 2^63] with Some s => s | None => [] end). vm_compute. intuition congruence.
+Qed.
